@@ -5,6 +5,7 @@ import GoBT.Driver.C14
 import GoBT.Driver.Fee
 import GoBT.Driver.Json
 import GoBT.Driver.Addr
+import GoBT.Driver.Interp
 open GoBT GoBT.Driver
 
 def dispatch (op : String) (args : List String) (impl : String) : Answer :=
@@ -43,6 +44,9 @@ def dispatch (op : String) (args : List String) (impl : String) : Answer :=
   | "C15.key" => c15Key args impl
   | "C17.rt" => c17Rt args impl
   | "C17.dec" => c17Dec args impl
+  | "IX.exec" => ixExec args impl
+  | "IX.total" => ixTotal impl
+  | "IX.dbg" => ixDbg args impl
   | _ => ("unknown-op", "n/a")
 
 partial def loop (h : IO.FS.Stream) (out : IO.FS.Stream) : IO Unit := do
